@@ -233,7 +233,6 @@ class RTPRun(fx2ir.Run):
         sub = SubRun(gm.to(torch.float64), self.tr, [self.node_of(x), self.node_of(y), wnode])
         sub.keep = self.keep
         res = sub.run(x, y, w.to(torch.float64))
-        self.keep.extend(sub.keep)
         return self.tag(res, sub.result_node)
 
 
